@@ -346,6 +346,12 @@ def run(chk, P):
     from rules import c09
     c09.r09_8(common.Proxy(chk, 'R07.9', only=lambda fn, cons: cons.startswith('dataoffsets-')), P, E)
     chk.floor('R07.9', 2)
+    from rules import pagestate
+    pagestate.stream_live(chk, P, 'R07.10')
+    chk.floor('R07.10', 4)
+    import frames as _fr
+    _fr.r07_11(chk, P)
+    chk.floor('R07.11', 3)
     import frames
     frames.c07(chk, P)
     chk.trusted += ['clang 14 front end', 'K3 effect table', 'interval abstraction of return values']
